@@ -459,6 +459,11 @@ def _eval_path(p, param: str, sep_present):
                     and isinstance(ev[1].ops[0], ast.Eq) and isinstance(ev[1].comparators[0], ast.Constant) \
                     and ev[1].comparators[0].value != "\n":
                 last_char_not_nl = True
+            # `line.endswith(';')` true: the same fact
+            if isinstance(ev[1], ast.Call) and call_name(ev[1]) == "endswith" and isinstance(ev[1].func, ast.Attribute) \
+                    and norm(ev[1].func.value) == param and ev[2] and len(ev[1].args) == 1 and isinstance(ev[1].args[0], ast.Constant) \
+                    and isinstance(ev[1].args[0].value, str) and ev[1].args[0].value and not ev[1].args[0].value.endswith("\n"):
+                last_char_not_nl = True
             # `piece.strip()` as a test refines what the piece may be
             tt, pol = ev[1], ev[2]
             while isinstance(tt, ast.UnaryOp) and isinstance(tt.op, ast.Not):
